@@ -586,7 +586,7 @@ def _trig_ideal(e):
     return e2
 
 
-def default_points(syms, n=4):
+def default_points(syms, n=10):
     import random
     rnd = random.Random(12345)
     pts = []
